@@ -4,7 +4,8 @@ A case is a HISTORY: one resource tree and 3..10 operations run in one process
 with warm caches (split_path_info / traversal_path_info / _join_path_tuple are
 lru_cache'd, quote_path_segment has a module dictionary):
 
-  req   ResourceTreeTraverser(root)(request)  PATH_INFO or matchdict entry, optional HTTP_X_VHM_ROOT;
+  req   ResourceTreeTraverser(root)(request)  PATH_INFO or matchdict entry, optional HTTP_X_VHM_ROOT; run on a FRESH
+        traverser and on the ONE traverser object shared by all `req` operations of the history (must agree);
         PATH_INFO requests are ALSO sent through Router.__call__ and the request attributes seen by a
         ContextFound subscriber are compared with the dictionary
   api   pyramid.traversal.traverse(resource, path)      path str or tuple, resource anywhere in the tree
@@ -37,7 +38,9 @@ RULE = ('random histories of 3-10 operations over one random tree (depth<=5, fan
         "default-ignorables), leaves without __getitem__); paths mix existing/missing segments, '', '.', "
         "'..', '@@v', percent-encoded and multi-byte text, trailing slashes; vroot absent / '/' / existing / missing / "
         'trailing slash / malformed; entry via PATH_INFO (direct + Router), matchdict traverse/subpath (str and tuple), '
-        'traverse()/find_resource() (str and tuple, absolute and relative), Router without routes (request attributes), '
+        'traverse()/find_resource() (str and tuple, absolute and relative); every direct traverser call is made on a fresh '
+        'traverser and on one traverser object reused for the whole history (different virtual roots / match dictionaries '
+        'in sequence); Router without routes (request attributes), '
         'Router with 7 declared routes (*traverse, {traverse}/*subpath, traverse= predicate, {subpath}: match dictionaries '
         'from real route matching). thorough adds the exhaustive small-scope sweep (coverage.exhaustive_subruns). non-trivial = the history has a traversal '
         'that consumed at least one segment AND one that stopped early (missing/leaf/@@) or ran under a virtual root; '
@@ -80,7 +83,8 @@ LEVEL_TEXT = ('Machine-checked theorems for trees, paths and virtual roots of an
               'root / virtual root, Router.handle_request writes exactly the dictionary onto the request, and memoisation '
               '(split_path_info, traversal_path_info, _join_path_tuple LRUs and the (segment, safe) dictionary; any valid '
               'cache state, any history of traversals, Router requests, traverse()/find_resource() calls, path splits and '
-              'segment quotings) never changes an answer. `traversed` is proved equal to the consumed segments without a virtual '
+              'segment quotings) never changes an answer, nor does reusing one traverser object for a history of requests '
+              '(the source facts say __call__ never writes to self). `traversed` is proved equal to the consumed segments without a virtual '
               'root or when the path is exhausted, and refuted otherwise (known finding). The percent/UTF-8 plumbing of '
               'traverse()/find_resource() is modelled here and validated by correspondence (its round trip is proved in C07).')
 LEVEL_NOTE = ('Trusted: Coq kernel; the translator (mechanical control-flow rules + the primitive table in the docstring of '
@@ -788,7 +792,7 @@ def _py_path(p):
     return p if isinstance(p, str) else tuple(p)
 
 
-def _run_op(root, o):
+def _run_op(root, o, trav=None):
     T = _impl['T']
     k = o['k']
     if k == 'req':
@@ -806,6 +810,18 @@ def _run_op(root, o):
             out = _tdict(T.ResourceTreeTraverser(root)(req))
         except Exception as e:
             out = _exc(e)
+        if trav is not None:
+            # the same request on the ONE traverser object that serves every `req` of this history: a traverser must
+            # not remember anything from earlier calls
+            req2 = _impl['Request'](dict(env))
+            if o['md'] is not None:
+                req2.matchdict = {kk: _py_path(v) for kk, v in o['md'].items()}
+            try:
+                reused = _tdict(trav(req2))
+            except Exception as e:
+                reused = _exc(e)
+            if reused != out:
+                return ['TRAVERSER-REUSE-DIFFERS', out, reused]
         if o['md'] is None:
             # the same request through the router: attributes seen after traversal
             cur = _impl['cur']
@@ -865,7 +881,8 @@ def run_impl(case):
         T._segment_cache.clear()
         T._segment_cache.update(_impl.get('seg0', {}))
     root = build_tree(case['tree'])
-    return [_run_op(root, o) for o in case['ops']]
+    trav = T.ResourceTreeTraverser(root)       # one long-lived traverser per history, next to a fresh one per call
+    return [_run_op(root, o, trav) for o in case['ops']]
 
 
 # ------------------------------------------------------------------ judging
